@@ -23,6 +23,9 @@ EVIDENCE = dict(
          "1..6, 3 at depth 6 in thorough), plus <= 4 elements with skipped levels / bare headings; these, the simulated and the "
          "random documents are also chunked with ChunkerConfig.MinHeadingLevel 1, 2, 4, 5, 6 (the spec emits the expected chain "
          "for every MinHeadingLevel). "
+         "Hollow elements: every document of <= 3 (thorough 4) letters over {H1, H2, P, L(3), hollow H, hollow P, hollow L, "
+         "hollow T, image without description, new page} for both chunkers and every configuration; also in the simulated and "
+         "random documents. "
          "Reuse: every history of 2-3 calls over two documents, and two goroutines, on ONE chunker object per configuration "
          "(documents sampled from the cases above: deep heading trees, oversize paragraphs, lists at section ends), each result "
          "compared with a fresh object's and judged by the contract. "
@@ -59,6 +62,14 @@ NOTES = """Interpretation choices (soundness first):
   MinHeadingLevel = m it must be the chain over headings of level <= m (emitted by the spec for m = 1..6) or the full chain.
   SectionTitle, and the "[title]" line of TextWithContext when present, must name the innermost entry of the chunk's
   SectionPath (judged first; a chunk without path - preamble, heading-less document - is not judged on its title).
+* Hollow elements (no content unit: heading / paragraph of white space, list without or with empty items, table without rows
+  or with empty cells, image without description; empty pages): a chunker may or may not emit a chunk for one - neither is
+  asserted.  A chunk without any unit is accepted exactly where a hollow element stands (all units before it consumed, none
+  after it) and must then still satisfy the index / id / total clauses; its pages and path are not judged.  A hollow heading
+  is a heading (it opens a section) but has no text: paths name it as -1 on both sides (NormPath).  The pages of hollow
+  elements standing directly before, between or after a chunk's units are admissible for its page range (their white space
+  may be part of the chunk text).  For rag.DocumentChunker, Layout.Headings omits hollow headings (it is only read to
+  recognise paragraphs that repeat a heading text; a blank entry would turn every blank paragraph into a heading).
 * Reuse (ChunkReuse.tla): one DocumentChunker / Chunker object per configuration chunks A, B, A ... (every history of 2-3
   calls over two documents) and A, B from two goroutines sharing it (6 rounds); every result must be identical to a fresh
   object's result for the same document (units, indices, ids, pages, paths, totals, title) and is judged by the chunking
@@ -153,11 +164,16 @@ def run(ctx):
             ("SectionTree", "SectionTree_mc_append.cfg", {"expect_violation": True}),
             # one chunker object, several calls / two goroutines: walk state kept in the call is pure; kept in the object
             # and reset per call it is pure for one caller only; never reset it is not pure
+            # hollow elements: the walk numbers their chunks like any other; dropping them after the index was taken
+            # leaves holes and must be refuted
+            ("ChunkingMC", "Chunking_mc_hollow.cfg", {}),
+            ("ChunkingMC", "Chunking_mc_hollow_contract.cfg", {}),
+            ("ChunkingMC", "Chunking_mc_hollow_drop.cfg", {"expect_violation": True}),
             ("ChunkReuseMC", "ChunkReuse_mc.cfg", {}),
             ("ChunkReuseMC", "ChunkReuse_mc_reset_seq.cfg", {}),
             ("ChunkReuseMC", "ChunkReuse_mc_reset_par.cfg", {"expect_violation": True}),
             ("ChunkReuseMC", "ChunkReuse_mc_carry.cfg", {"expect_violation": True})]
-    with ThreadPoolExecutor(max_workers=10) as ex:
+    with ThreadPoolExecutor(max_workers=12) as ex:
         futs = [ex.submit(ctx.tlc, m, c, workers=3, timeout=3000, count=False, jvm=JVM_SMALL, **kw) for m, c, kw in jobs]
         # R2 emission runs meanwhile, in a second pool (one JVM each, single worker for a stable order)
         def emit(cfg, **kw):
@@ -172,8 +188,11 @@ def run(ctx):
                 # heading trees: sibling sections at every depth 1..6 (one-word paragraphs), plus skipped levels / bare headings
                 "tree": ex2.submit(emit, "Chunking_gen_tree_quick.cfg" if q else "Chunking_gen_tree_thorough.cfg"),
                 "skip": ex2.submit(emit, "Chunking_gen_tree_skip.cfg"),
+                # hollow elements of every kind at the start / in the middle / at the end of documents and sections
+                "hollow": ex2.submit(emit, "Chunking_gen_hollow_quick.cfg" if q else "Chunking_gen_hollow_thorough.cfg"),
                 "pdfgen": ex2.submit(emit, "Chunking_gen_pdf_quick.cfg" if q else "Chunking_gen_pdf_thorough.cfg"),
                 "pdfsim": ex2.submit(emit, "Chunking_sim_pdf.cfg", simulate=60 if q else 1500, depth=13),
+                "hflush": ex2.submit(emit, "Chunking_gen_hollow_flush.cfg"),
                 "hist": ex2.submit(ctx.tlc, "ChunkReuseHist", "ChunkReuse_gen.cfg", workers=1, collect=True, count=False,
                                    timeout=3000, jvm=JVM_SMALL),
                 "sim": ex2.submit(emit, "Chunking_sim.cfg", simulate=150 if q else 4000, depth=13),
@@ -181,6 +200,8 @@ def run(ctx):
             gen, lists, bound, tree, skip, pdfgen, pdfsim, sim = [e[k].result() for k in
                                                                   ("gen", "lists", "bound", "tree", "skip", "pdfgen", "pdfsim", "sim")]
             hists = e["hist"].result()["cases"]
+            hollow = e["hollow"].result()
+            hollow["cases"] += e["hflush"].result()["cases"]
             if e["gap"] is not None:
                 gen["cases"] += e["gap"].result()["cases"]
         for f, (_, _, kw) in zip(futs, jobs):
@@ -194,7 +215,7 @@ def run(ctx):
         c["tree"] = True   # also chunked with MinHeadingLevel 1, 2, 4, 5, 6
     for c in tree["cases"] + skip["cases"]:
         c["lean"] = True   # one-word paragraphs: the size presets add nothing
-    for c in gen["cases"] + lists["cases"] + bound["cases"] + tree["cases"] + skip["cases"] + sim["cases"]:
+    for c in gen["cases"] + lists["cases"] + bound["cases"] + tree["cases"] + skip["cases"] + hollow["cases"] + sim["cases"]:
         k = json.dumps([c["doc"], c["pages"]])
         if k not in seen:
             seen.add(k)
@@ -204,6 +225,7 @@ def run(ctx):
     ctx.extra["cases_exhaustive"] = len(gen["cases"])
     ctx.extra["cases_exhaustive_lists"] = len(lists["cases"])
     ctx.extra["cases_exhaustive_boundary_sizes"] = len(bound["cases"])
+    ctx.extra["cases_hollow_elements"] = len(hollow["cases"])
     ctx.extra["cases_heading_trees"] = len(tree["cases"]) + len(skip["cases"])
     ctx.extra["cases_simulated"] = len(sim["cases"])
     tm = 150 if q else 40
